@@ -574,8 +574,8 @@ class BitArray(Bits):
             # Try to repeat up to the end of the bitstring.
             finalbit = end_v
         else:
-            # Just try one (set of) byteswap(s).
-            finalbit = start_v + totalbitsize
+            # Just try one (set of) byteswap(s), and only if it fits before the end.
+            finalbit = min(start_v + totalbitsize, end_v)
         for patternend in range(start_v + totalbitsize, finalbit + 1, totalbitsize):
             bytestart = patternend - totalbitsize
             for bytesize in bytesizes:
